@@ -62,13 +62,13 @@ def handleC25Scope (fields : List String) : String :=
 (an empty field = unnamed); body: `ret:<n>` statements / `other`, separated by `;`. -/
 def handleC25Lambda (fields : List String) : String :=
   match fields with
-  | ps :: rs :: body :: _ =>
+  | ps :: rs :: body :: rest =>
     let fl (s : String) : List (List String) := if s = "-" then [] else (s.splitOn ";").map gsNames
     let stmts : List BodyStmt := if body = "-" then [] else (body.splitOn ";").map fun t =>
       match t.splitOn ":" with
       | ["ret", n] => .ret (List.range (n.toNat?.getD 0))
       | _ => .other
-    match toLambda { params := fl ps, results := fl rs, body := stmts } with
+    match toLambda { params := fl ps, variadic := rest.head? = some "variadic", results := fl rs, body := stmts } with
     | .unchanged => "unchanged"
     | .expr lhs rhs lp rp => s!"expr lhs={",".intercalate lhs} nrhs={rhs.length} lp={lp} rp={rp}"
     | .blockL lhs b lp => s!"block lhs={",".intercalate lhs} nstmts={b.length} lp={lp}"
@@ -77,7 +77,7 @@ def handleC25Lambda (fields : List String) : String :=
 /-- `c25lower name` → `startWithLowerCase(name)` -/
 def handleC25Lower (fields : List String) : String :=
   match fields with
-  | n :: _ => lowerFirst n
+  | n :: _ => lowerCall n
   | _ => "bad-input"
 
 end GopModel.Driver
